@@ -1,6 +1,7 @@
 """C09 — pending candidate events equal what a fresh start creates (DESIGN.md section 5, C09)."""
 import common as C
 import hist
+import wiring
 
 HEADER = "Require Import JF.Model.Activator JF.Model.ActivatorCases."
 TRUSTED = [
@@ -27,7 +28,7 @@ def run(ctx, replay_jobs=None):
         "(run_conf) together with the frame condition of theorem pending_fresh (frames_ok); model-independent "
         "oracle: multiset of pending in-states == fresh generation for identity-sensitive taggers, counts for the "
         "count-only ones, handlers demanded <= handlers owned",
-        replay_jobs=replay_jobs)
+        replay_jobs=replay_jobs, static_obligations=wiring.static_obligations)
 
 
 def replay(ctx, path):
